@@ -21,6 +21,8 @@ def run(pid, tier, every):
             c[f["label"]] += 1
             ex.setdefault(f["label"], (r["spec"], f["values"], f["detail"]))
     print(len(specs), "obligations", dict(st), "paths", sum(r.get("paths", 0) for r in res), "wall %.1f" % (time.time() - t))
+    for r in sorted(res, key=lambda r: -r.get("wall", 0))[:6]:
+        print("  slow: %.1fs paths=%d %s" % (r.get("wall", 0), r.get("paths", 0), json.dumps(r["spec"])[:200]))
     for k, v in c.most_common():
         print("%5d %s\n      e.g. %s" % (v, k, json.dumps(ex[k])[:600]))
 if __name__ == "__main__":
